@@ -19,7 +19,7 @@
    Oracles: at every successful wait: successes so far <= posts started (no success without
    a post); the waiter finishes (no post lost: deadlock rule); afterwards a wait with an
    expired deadline reports ETIMEDOUT (no phantom count).  */
-#include "common.h"
+#include "sc.h"
 #include "sem.h"
 
 static struct {
